@@ -152,6 +152,24 @@ def run(ctx):
         PI, PV = pxr[0], pxr[1]
         ctx.tables["roles"] = {"iterator": {"wrapped": IT, "index": IDX}, "enumerate_proxy": {"begin": B, "end": E}, "proxy": {"index": PI, "value": PV}}
     if roles_ok:
+        # the running index counts every element of any range: each carrier on its way (iterator member, constructor
+        # parameters, the element proxy's member) is as wide as std::size_t (w9 pins what index() returns)
+        want_bits = getattr(prog, "size_t_bits", None)
+        carriers = []
+        for cname, fld, ctor, pi in ((it_cls, IDX, itc, 1), (NS + "detail::enumerate_proxy::proxy", PI, pxc, 0)):
+            c0 = prog.cls(cname)
+            for fl in (c0 or {}).get("fields", []):
+                if fl["name"] == fld:
+                    carriers.append(("%s::%s" % (short(cname), fld), fl.get("type"), fl.get("bits"), "%s:%d" % (c0["file"], c0["line"])))
+            if ctor is not None and len(ctor.params) > pi:
+                carriers.append(("%s(%s)" % (short(cname), ctor.params[pi]["name"]), ctor.params[pi].get("type"), ctor.params[pi].get("bits"), ctor))
+        ctx.need("R20.1", "carriers of the running index", len(carriers), 4)
+        for nm, ty_, bits, where in carriers:
+            if bits is None or want_bits is None:
+                ctx.broken("R20.1", it_cls, "index-width:" + nm, "cannot determine the width of %s (%s)" % (nm, ty_), where)
+            else:
+                ctx.check(bits >= want_bits, "R20.1", it_cls, "index-width:" + nm, "%s has type %s (%d bits) while ranges hold up to 2^%d elements: the running index wraps to 0 after 2^%d elements, "
+                          "later elements are paired with indices that were used before" % (nm, ty_, bits, want_bits, bits), where, why_ok="%s, %d bits" % (ty_, bits))
         for nm, want in (("begin", B), ("end", E)):
             fs = P(lambda f: f.cls == NS + "detail::enumerate_proxy" and f.name == nm)
             ctx.need("R20.1", "enumerate_proxy::" + nm, len(fs), 1)
